@@ -193,7 +193,7 @@ func (c *Ctx) applyUF(name string, in []*Term, nOut int, outMax int) []*Term {
 			if len(ap.args) != len(in) {
 				if c.injective[name] && len(ap.res) == len(res) {
 					eqOut := TTrue
-					for i := range res {
+					for i := injTail(name, len(res)); i < len(res); i++ {
 						eqOut = And(eqOut, Eq(ap.res[i], res[i]))
 					}
 					c.addPC(Not(eqOut))
@@ -212,13 +212,30 @@ func (c *Ctx) applyUF(name string, in []*Term, nOut int, outMax int) []*Term {
 				c.addPC(Or(Not(eqIn), eqOut))
 			}
 			if c.injective[name] {
-				c.addPC(Or(Not(eqOut), eqIn))
+				eqTail := TTrue
+				for i := injTail(name, len(res)); i < len(res); i++ {
+					eqTail = And(eqTail, Eq(ap.res[i], res[i]))
+				}
+				c.addPC(Or(Not(eqTail), eqIn))
 			}
 		}
 		c.model = nil
 	}
 	c.ufApps[name] = append(apps, ufApp{args: in, res: res})
 	return res
+}
+
+// injTail: cryptographic digests are assumed collision free even when their first four bytes are
+// ignored (the protocol overwrites bytes 0..3 of transaction and block hashes with location and
+// ledger tags, so identity rests on the remaining 28 bytes).
+func injTail(name string, n int) int {
+	switch name {
+	case "keccak256", "keccak512", "blake3", "sha256":
+		if n >= 8 {
+			return 4
+		}
+	}
+	return 0
 }
 
 var _ = types.Typ
